@@ -102,6 +102,7 @@ class T:
         self.consts = consts          # symbolic machinery, constant inputs (self-check)
         self.rng = _random.Random(seed)
         self.inputs = {}              # name -> array (this path)
+        self.str_inputs = {}
         self.shapes = {}
         self.obligations = 0
         self.discharged = 0
@@ -134,6 +135,15 @@ class T:
         if self.consts:
             return wrap(vals.copy())
         return vals.copy()
+
+    def sym_str(self, name, default):
+        """a symbolic string atom (value grammar [A-Za-z0-9]+); concrete mode: the recorded / default value"""
+        if self.symbolic and not self.consts:
+            from .strings import Atom, SS
+            a = Atom(name, default)
+            self.str_inputs[name] = a
+            return SS([a])
+        return self.values.get('__str__', {}).get(name, default)
 
     def scalar(self, name, positive=False):
         return self.arr(name, (1,), positive=positive)[0]
@@ -283,6 +293,18 @@ class T:
                             mv = None
                     out[idx] = v.sh if mv is None else mv
                 vals[name] = out.tolist()
+            if self.str_inputs:
+                sv = {}
+                for name, a in self.str_inputs.items():
+                    val = None
+                    if model is not None:
+                        try:
+                            mv = model.eval(a.z, model_completion=True)
+                            val = mv.as_string() if z3.is_string_value(mv) else None
+                        except Exception:
+                            val = None
+                    sv[name] = val if val else a.sh
+                vals['__str__'] = sv
         else:
             vals = {k: (v.tolist() if isinstance(v, real_np.ndarray) else v) for k, v in self.values.items()}
         self.failures.append(Failure(label=label, key=key or label.split('[')[0], kind=kind, detail=str(detail)[:400],
